@@ -1,5 +1,5 @@
 (* ServerSafetyOps.v -- C05, part 2: the per-session operations of Server.v preserve the
-   invariant user_ok of ServerSafetyProofs.v, and the datagrams they emit fit the C buffers:
+   invariant user_ok_gen P of ServerSafetyProofs.v, and the datagrams they emit fit the C buffers:
    start_new_outpacket, the out-packet queue, the DNS cache, the query memories,
    send_chunk_or_dataless (pkt[4096]), process_downstream_ack. *)
 From Coq Require Import List NArith ZArith Arith Bool Lia ZifyBool ZifyNat ZifyN.
@@ -10,19 +10,24 @@ Local Open Scope N_scope.
 
 Ltac Zify.zify_post_hook ::= Z.div_mod_to_equations.
 
+(* all lemmas are generic in the condition P on the reassembly buffer: none of these operations
+   touches u_in *)
+Section Gen.
+Context {P : pkt -> Prop}.
+
 (* ---- start_new_outpacket, queue ---------------------------------------------------------- *)
 
 Lemma firstn_K64_len {A} (l : list A) : (length (firstn (N.to_nat 65536) l) <= K64)%nat.
 Proof. rewrite firstn_length. unfold K64. lia. Qed.
 
-Lemma start_new_outpacket_ok u data : user_ok u -> user_ok (start_new_outpacket u data).
+Lemma start_new_outpacket_ok u data : user_ok_gen P u -> user_ok_gen P (start_new_outpacket u data).
 Proof.
   intros H. unfold start_new_outpacket. uok H; try lia.
   pose proof (firstn_K64_len data) as HL. destruct I_out.
   constructor; cbn; try lia; try assumption.
 Qed.
 
-Lemma save_to_outpacketq_ok u data : user_ok u -> user_ok (fst (save_to_outpacketq u data)).
+Lemma save_to_outpacketq_ok u data : user_ok_gen P u -> user_ok_gen P (fst (save_to_outpacketq u data)).
 Proof.
   intros H. unfold save_to_outpacketq.
   destruct (QLEN <=? u_queue_filled u)%nat eqn:E; [exact H|].
@@ -32,7 +37,7 @@ Proof.
     constructor; cbn; lia.
 Qed.
 
-Lemma get_from_outpacketq_ok u : user_ok u -> user_ok (fst (get_from_outpacketq u)).
+Lemma get_from_outpacketq_ok u : user_ok_gen P u -> user_ok_gen P (fst (get_from_outpacketq u)).
 Proof.
   intros H. unfold get_from_outpacketq. destruct (u_queue_filled u) as [|f] eqn:E; [exact H|].
   cbn [fst].
@@ -43,14 +48,14 @@ Proof.
   destruct (QLEN <=? S (u_queue_next u))%nat eqn:E2; lia.
 Qed.
 
-Lemma drop_outpacket_ok u : user_ok u -> user_ok (drop_outpacket u).
+Lemma drop_outpacket_ok u : user_ok_gen P u -> user_ok_gen P (drop_outpacket u).
 Proof.
   intros H. unfold drop_outpacket. uok H; try lia. destruct I_out. constructor; cbn; try lia; assumption.
 Qed.
 
 (* ---- caches ------------------------------------------------------------------------------ *)
 
-Lemma save_to_dnscache_ok u q id answer : user_ok u -> hq_ok q -> user_ok (save_to_dnscache u q id answer).
+Lemma save_to_dnscache_ok u q id answer : user_ok_gen P u -> hq_ok q -> user_ok_gen P (save_to_dnscache u q id answer).
 Proof.
   intros H Hq. unfold save_to_dnscache.
   destruct (N.to_nat 4096 <? length answer)%nat eqn:E; [exact H|].
@@ -75,7 +80,7 @@ Proof. intros H. unfold save_to_qmem. cbn. destruct (len <=? S last)%nat eqn:E; 
 Lemma lower4_length nm : length (lower4 nm) = 4%nat.
 Proof. unfold lower4. rewrite map_length. reflexivity. Qed.
 
-Lemma save_to_qmem_pingordata_ok u q : user_ok u -> user_ok (save_to_qmem_pingordata u q).
+Lemma save_to_qmem_pingordata_ok u q : user_ok_gen P u -> user_ok_gen P (save_to_qmem_pingordata u q).
 Proof.
   intros H. unfold save_to_qmem_pingordata.
   pose proof ring_sizes as (_ & _ & HP & HD).
@@ -100,10 +105,10 @@ Proof.
     uok H; try lia; try (apply H2; [assumption|apply lower4_length]).
 Qed.
 
-Lemma setq_ok u w q : user_ok u -> hq_ok q -> user_ok (setq u w q).
+Lemma setq_ok u w q : user_ok_gen P u -> hq_ok q -> user_ok_gen P (setq u w q).
 Proof. intros H Hq. destruct w; cbn; uok H. Qed.
 
-Lemma getq_ok u w : user_ok u -> hq_ok (getq u w).
+Lemma getq_ok u w : user_ok_gen P u -> hq_ok (getq u w).
 Proof. intros H. destruct H. destruct w; assumption. Qed.
 
 (* ---- outputs ------------------------------------------------------------------------------ *)
@@ -185,7 +190,7 @@ Proof.
   unfold get_from_outpacketq. destruct (u_queue_filled u); cbn; lia.
 Qed.
 
-Lemma scd_u1_ok u0 : user_ok u0 -> user_ok (scd_u1 u0).
+Lemma scd_u1_ok u0 : user_ok_gen P u0 -> user_ok_gen P (scd_u1 u0).
 Proof.
   intros H. unfold scd_u1. destruct (_ && _); [apply get_from_outpacketq_ok, drop_outpacket_ok, H|exact H].
 Qed.
@@ -200,7 +205,7 @@ Qed.
 Lemma scd_datalen_le u1 : scd_datalen u1 <= 4094 /\ p_offset (u_out u1) + scd_datalen u1 <= N.max (p_len (u_out u1)) (p_offset (u_out u1)).
 Proof. unfold scd_datalen. destruct (0 <? p_len (u_out u1)); lia. Qed.
 
-Lemma scd_u2_ok u1 : user_ok u1 -> ((0 <? p_len (u_out u1)) = true -> u_resent u1 <= 5) -> user_ok (scd_u2 u1).
+Lemma scd_u2_ok u1 : user_ok_gen P u1 -> ((0 <? p_len (u_out u1)) = true -> u_resent u1 <= 5) -> user_ok_gen P (scd_u2 u1).
 Proof.
   intros H Hr. unfold scd_u2. destruct (0 <? p_len (u_out u1)) eqn:E; [|exact H].
   specialize (Hr eq_refl). pose proof (scd_datalen_le u1) as [H1 H2].
@@ -216,7 +221,7 @@ Qed.
 Lemma scd_q'_ok q : hq_ok q -> hq_ok (scd_q' q).
 Proof. unfold scd_q', hq_ok. destruct (negb _); cbn; auto. Qed.
 
-Lemma scd_u5_ok u1 w : user_ok u1 -> ((0 <? p_len (u_out u1)) = true -> u_resent u1 <= 5) -> user_ok (scd_u5 u1 w).
+Lemma scd_u5_ok u1 w : user_ok_gen P u1 -> ((0 <? p_len (u_out u1)) = true -> u_resent u1 <= 5) -> user_ok_gen P (scd_u5 u1 w).
 Proof.
   intros H Hr. unfold scd_u5. cbv zeta.
   pose proof (scd_u2_ok u1 H Hr) as H2.
@@ -225,15 +230,15 @@ Proof.
   unfold hq_ok in *. cbn. exact Hq.
 Qed.
 
-Lemma scd_outs_ok u1 w : user_ok u1 -> ((0 <? p_len (u_out u1)) = true -> u_resent u1 <= 5) -> outs_ok (scd_outs u1 w).
+Lemma scd_outs_ok u1 w : user_ok_gen P u1 -> ((0 <? p_len (u_out u1)) = true -> u_resent u1 <= 5) -> outs_ok (scd_outs u1 w).
 Proof.
   intros H Hr. unfold scd_outs. cbv zeta.
   pose proof (getq_ok _ w (scd_u2_ok u1 H Hr)) as Hq. pose proof (scd_pktb_len u1) as HL.
   constructor; [split; assumption|]. destruct (negb _); constructor; [split; assumption|constructor].
 Qed.
 
-Lemma scd_ok u0 w : user_ok u0 ->
-  user_ok (fst (fst (send_chunk_or_dataless u0 w))) /\ outs_ok (snd (fst (send_chunk_or_dataless u0 w))).
+Lemma scd_ok u0 w : user_ok_gen P u0 ->
+  user_ok_gen P (fst (fst (send_chunk_or_dataless u0 w))) /\ outs_ok (snd (fst (send_chunk_or_dataless u0 w))).
 Proof.
   intros H. rewrite scd_eq. cbv zeta.
   pose proof (scd_u1_ok u0 H) as H1. pose proof (scd_u1_resent u0) as Hr.
@@ -250,15 +255,16 @@ Proof. unfold schar_wrap. lia. Qed.
 Lemma schar_range b : b < 256 -> (-128 <= schar b <= 127)%Z.
 Proof. intros H. unfold schar. destruct (b <? 128) eqn:E; lia. Qed.
 
-Lemma process_downstream_ack_ok u s f : user_ok u -> user_ok (process_downstream_ack u s f).
+Lemma process_downstream_ack_ok u s f : user_ok_gen P u -> user_ok_gen P (process_downstream_ack u s f).
 Proof.
   intros H. unfold process_downstream_ack. cbv zeta.
   destruct (p_len (u_out u) =? 0); [exact H|]. destruct (negb _); [exact H|].
-  match goal with |- user_ok (if ?c then _ else _) => destruct c eqn:E end.
+  match goal with |- user_ok_gen P (if ?c then _ else _) => destruct c eqn:E end.
   - apply get_from_outpacketq_ok.
     uok H; try lia. destruct I_out. constructor; cbn; try lia; try assumption. apply schar_wrap_range.
   - cbn in E.
     uok H; try lia. destruct I_out. constructor; cbn; try lia; try assumption. apply schar_wrap_range.
 Qed.
 
+End Gen.
 (* EOF *)
